@@ -59,6 +59,9 @@ def linear_lt(c, truth=True):
         A, B, off = rt, lt, lo - ro
     else:
         A, B, off = rt, lt, lo - ro + 1
+    if A.endswith("max_simul") and not B.endswith("max_simul"):
+        # M < N + off  <=>  not (N < M + 1 - off): always state the guard with the run counter on the left
+        A, B, off, neg = B, A, 1 - off, not neg
     return A, B, off, neg
 
 
@@ -207,16 +210,20 @@ def r12_2(prog, rep):
         rep.ok(rid, "%s/dec-unconditional" % g.name, g.loc(gline), "every child exit decrements nsim")
     else:
         rep.fail(rid, "%s/dec-unconditional" % g.name, g.loc(gline), "a path through %s skips the decrement" % g.name)
-    # the decremented task is c->data
-    src = None
+    # the decremented task is c->data: every definition of the variable the decrement goes through is the watcher's data
+    tv = lv(strip_casts([l2 for l2, k2, n2 in writes(g.cfg.elem(gb, gi))][0])).split("->")[0]
+    srcs = []
     for bb, ii, x, ln in g.cfg.all_elems():
         for l, kind, n in writes(x):
-            if kind == "decl" and n.get("init") is not None and lv(l) == lv(strip_casts([l2 for l2, k2, n2 in writes(g.cfg.elem(gb, gi))][0])).split("->")[0]:
-                src = lv(g.cfg.resolve(n["init"]))
-    if src and src.endswith("->data"):
-        rep.ok(rid, "%s/dec-target" % g.name, g.loc(gline), "decrement applies to %s" % src)
+            if lv(l) != tv:
+                continue
+            rhs = n.get("init") if kind == "decl" else (n.get("r") if n.get("k") == "bin" and n["op"] == "=" else {})
+            if rhs is not None:
+                srcs.append(lv(g.cfg.resolve(rhs)))
+    if srcs and all(s_.endswith("->data") for s_ in srcs):
+        rep.ok(rid, "%s/dec-target" % g.name, g.loc(gline), "decrement applies to %s" % srcs[0])
     else:
-        rep.fail(rid, "%s/dec-target" % g.name, g.loc(gline), "decrement applies to %s, not to the watcher's data" % src)
+        rep.fail(rid, "%s/dec-target" % g.name, g.loc(gline), "decrement applies to %s, not to the watcher's data" % (srcs or None))
 
 
 # accepted exceptions for R12.3, confirmed by reading
